@@ -214,7 +214,10 @@ def lockstep(rep, rng, seed, num):
     from checks import c01
     sims = _retry(core.tlc_simulate, 'MC_CommitLog.tla', 'Sim_CommitLog.cfg', num, 12, seed + 31)
     behaviours = [c01.decorate(b, rng, 500000 + i) for i, b in enumerate(sims) if len(b) > 1]
-    behaviours = [b for b in behaviours if any(s['a'] == 'Drain' for s in b['steps']) and not _truncates_under_reader(b)]
+    # 'Tail' (a reader blocking in its own goroutine) is C01's own experiment; blocking readers are what the gated
+    # replay of Reader.tla covers, so those behaviours are left to C01
+    behaviours = [b for b in behaviours if any(s['a'] == 'Drain' for s in b['steps']) and not _truncates_under_reader(b)
+                  and not any(s['a'] == 'Tail' for s in b['steps'])]
     with core.scratch('c03a') as d:
         trace = c01.execute(behaviours, d)
         res = _retry(core.tlc_trace, 'Trace_CommitLog.tla', 'Trace_CommitLog.cfg', trace)
@@ -351,7 +354,7 @@ def run(rep, tier, seed, replay):
             hist[x] = hist.get(x, 0) + 1
     rep.cov['race_windows_crossed'] = hist
     # (a) sequential cases through C01's lock-step driver
-    lb, lres = lockstep(rep, rng, seed, 500 if not thorough else 6000)
+    lb, lres = lockstep(rep, rng, seed, 1500 if not thorough else 12000)
     rep.cov['lockstep_behaviours_with_readers'] = len(lb)
     rep.cov['traces_validated_against_impl'] += len(lb)
     rep.cov['trace_lines_validated'] += lres['validated']
